@@ -35,9 +35,10 @@ UFDom(op, x) == CASE op \in {"log", "log10"} -> x > 0 [] op = "sqrt" -> x >= 0 [
 RECURSIVE IPowV(_, _)
 IPowV(a, n) == IF n = 0 THEN 1 ELSE a * IPowV(a, n - 1)
 Gcd(a, b) == LET RECURSIVE G(_, _) G(p, q) == IF q = 0 THEN p ELSE G(q, p % q) IN G(IF a < 0 THEN 0 - a ELSE a, IF b < 0 THEN 0 - b ELSE b)
-\* exact quotient: an integer when it divides, else the normalised fraction <<"q", num, den>> with den > 0
+\* exact quotient: ALWAYS the normalised fraction <<"q", num, den>> with den > 0 (den = 1 for whole numbers), so that
+\* all cells of a column of quotients / means have one shape (TLC cannot compare an integer with a tuple)
 Quot(x, y) == LET s == IF y < 0 THEN 0 - 1 ELSE 1  n == s * x  d == s * y  g == Gcd(n, d)
-              IN IF (n % d) = 0 THEN n \div d ELSE <<"q", n \div g, d \div g>>
+              IN <<"q", n \div g, d \div g>>
 CmpOps   == {"==", "!=", "<", "<=", ">", ">="}
 LogicOps == {"and", "or"}
 PickOps  == {"maximum", "minimum", "fmax", "fmin", "coalesce"}
